@@ -12,12 +12,12 @@ func TestTranslateLoops(t *testing.T) {
 	if repo == "" {
 		t.Skip("TRANSLATE_TEST_REPO not set")
 	}
-	for _, fn := range []string{"countDots", "sumIdx"} {
-		tt := trTarget{name: fn, file: "martian/x/x.go", fn: fn, goParams: true, leanTy: "List UInt8 → Int", resTy: tyInt}
+	for _, fn := range []string{"countDots", "sumIdx", "sumTo", "firstBig"} {
+		tt := trTarget{name: fn, file: "martian/x/x.go", fn: fn, goParams: true, leanTy: "List UInt8 → Int", resTy: tyInt, retLean: "Int"}
 		s, _, err := translateTarget(repo, &tt)
 		if err != nil {
 			t.Fatalf("%s: %v", fn, err)
 		}
-		t.Logf("def %s : List UInt8 → Int := %s", fn, s)
+		t.Logf("def %s := %s", fn, s)
 	}
 }
